@@ -22,17 +22,24 @@ theorem apply_conversion_failure_surfaces (u : Updater) (sc : Schema) (live cfg 
     (m : Managed) (mgr : String) (force : Bool) (k : String) (vs : VersionedSet) (v : String)
     (hmem : (k, vs) ∈ m) (hv : vs.version = v) (hf : FailsAt u v) :
     NoObject (apply u sc live cfg ver m mgr force) ∧
-      ∀ c, apply u sc live cfg ver m mgr force ≠ .conflict c := sorry
+      ∀ c, apply u sc live cfg ver m mgr force ≠ .conflict c := by
+  subst hv
+  have h := apply_of_reconcile_err_or_panic (reconcileManaged_fails u sc live k vs hf m hmem) cfg ver mgr force
+  rcases h with h | h <;> rw [h] <;> exact ⟨trivial, fun c hc => by cases hc⟩
 
 theorem update_conversion_failure_surfaces (u : Updater) (sc : Schema) (live newObj : TV) (ver : String)
     (m : Managed) (mgr : String) (k : String) (vs : VersionedSet) (v : String)
     (hmem : (k, vs) ∈ m) (hv : vs.version = v) (hf : FailsAt u v) :
-    NoObject (update u sc live newObj ver m mgr) := sorry
+    NoObject (update u sc live newObj ver m mgr) := by
+  subst hv
+  have h := update_of_reconcile_err_or_panic (reconcileManaged_fails u sc live k vs hf m hmem) newObj ver mgr
+  rcases h with h | h <;> rw [h] <;> trivial
 
 /-- a failure of the conversion of the merged object to the applier's previous version surfaces too -/
 theorem prune_conversion_failure_surfaces (u : Updater) (sc : Schema) (merged : TV) (m : Managed) (mgr : String)
     (last : VersionedSet) (hne : last.set.isEmpty = false) (hf : FailsAt u last.version) :
-    prune u sc merged m mgr (some last) = .err := sorry
+    prune u sc merged m mgr (some last) = .err :=
+  prune_fails u sc merged m mgr last hne hf
 
 /-- non-vacuity: a converter that fails exactly at "v2" -/
 example : FailsAt { converter := ⟨fun tv v => if v == "v2" then .fail else .ok tv⟩, ignore := fun _ => none } "v2" := by
